@@ -659,6 +659,97 @@ func checkFrameHelpers(p *load.Program, r *kit.Report, rule string) {
 			})
 		}
 		r.Check(badD == "", rule, "handleMessage/handler-owns-payload", posOf(p, f.Blocks[0].Instrs[0]), "handleMessage reads nothing from the connection after starting the handler", badD)
+		// … and handleMessage returns only with the handler's result: the next header is read by
+		// the caller as soon as it returns, and a handler still reading the payload would share the
+		// connection with it
+		{
+			badW := ""
+			// the handler may be started by a helper that returns the result channel
+			startsGo := func(c ssa.CallInstruction) bool {
+				g := kit.StaticCallee(c)
+				if g == nil || g.Blocks == nil || g.Pkg != f.Pkg {
+					return false
+				}
+				has := false
+				kit.AllInstrs(g, func(in ssa.Instruction) {
+					if _, ok := in.(*ssa.Go); ok {
+						has = true
+					}
+				})
+				return has
+			}
+			kit.AllInstrs(f, func(in ssa.Instruction) {
+				if c, ok := in.(*ssa.Call); ok && startsGo(c) {
+					started = append(started, in)
+				}
+			})
+			resultChan := func(v ssa.Value) bool {
+				switch x := kit.Strip(v).(type) {
+				case *ssa.MakeChan:
+					return true
+				case *ssa.Call:
+					return startsGo(x)
+				}
+				return false
+			}
+			var results []kit.Guard
+			for _, b := range f.Blocks {
+				ifi, ok := b.Instrs[len(b.Instrs)-1].(*ssa.If)
+				if !ok {
+					continue
+				}
+				bo, ok := ifi.Cond.(*ssa.BinOp)
+				if !ok || bo.Op != token.EQL {
+					continue
+				}
+				ex, ok := bo.X.(*ssa.Extract)
+				if !ok || ex.Index != 0 {
+					continue
+				}
+				sel, ok := ex.Tuple.(*ssa.Select)
+				if !ok {
+					continue
+				}
+				k, isC := kit.ConstInt(bo.Y)
+				if !isC || int(k) >= len(sel.States) || k < 0 {
+					continue
+				}
+				st := sel.States[k]
+				if st.Dir != types.RecvOnly {
+					continue
+				}
+				if resultChan(st.Chan) {
+					results = append(results, kit.Guard{If: ifi, Pass: 0})
+				}
+			}
+			// a plain receive `err := <-errChan`
+			var recvs []ssa.Instruction
+			_ = resultChan
+			kit.AllInstrs(f, func(in ssa.Instruction) {
+				if u, ok := in.(*ssa.UnOp); ok && u.Op == token.ARROW {
+					if resultChan(u.X) {
+						recvs = append(recvs, in)
+					}
+				}
+			})
+			if len(started) == 0 {
+				badW = "no handler goroutine is started"
+			} else if len(results) == 0 && len(recvs) == 0 {
+				badW = "the handler's result is never received"
+			}
+			for _, g := range started {
+				if badW != "" {
+					break
+				}
+				rr := kit.Reach(f, kit.After(g), kit.Opts{StopAt: kit.InstrSet(recvs...), BlockEdge: kit.EdgeSet(edgesOf(results, true)...)})
+				for _, ret := range kit.Returns(f) {
+					if rr.Has(ret) {
+						badW = "handleMessage can return (" + rr.PathTo(ret, p.Pos) + ") while the handler it started is still running: the caller reads the next message header from the connection while the handler is still reading this message's payload"
+					}
+				}
+			}
+			r.Check(badW == "", rule, "handleMessage/waits-for-handler", posOf(p, f.Blocks[0].Instrs[0]), "every return after the handler was started follows the receipt of its result", badW)
+		}
 	}
 	// handleExtended: Length store precedes the deferred discard; 12+8 bytes read before
 	if f := fn(p, r, rule, R, "BitcoinNode.handleExtended"); f != nil {
